@@ -74,6 +74,17 @@ func c03Cursor(r *rng, id string) {
 				ml.VerifSetStateChange(m, name, time.Now().Add(-time.Hour))
 			}
 			fmt.Fprintf(&sb, "D:%s>%s", name, snap())
+		case k == 9 && r.chance(1, 2):
+			// gossip and push/pull ticks pick random peers; the probe order must not be disturbed
+			ml.VerifQueueBroadcast(m, "x", []byte{8, 1, 2, 3})
+			if r.chance(1, 2) {
+				ml.VerifGossip(m)
+				fmt.Fprintf(&sb, "G:->%s", snap())
+			} else {
+				ml.VerifPushPull(m)
+				synctest.Wait()
+				fmt.Fprintf(&sb, "X:->%s", snap())
+			}
 		default:
 			if next > 0 {
 				name := fmt.Sprintf("m%d", r.intn(next))
@@ -119,6 +130,8 @@ func c03Crash(r *rng, id string) {
 		crashAt[i] = time.Duration(r.intn(20000)) * time.Millisecond
 	}
 	go cl.joinAll(400 * time.Millisecond)
+	takeover := r.chance(1, 3)
+	var extra []*simNode
 	crashTime := map[string]time.Duration{}
 	// known[s][c] = survivor s listed c at some point
 	known := map[string]map[string]bool{}
@@ -144,6 +157,17 @@ func c03Crash(r *rng, id string) {
 			if !cl.nodes[i].crashed && now >= t {
 				cl.nodes[i].crash()
 				crashTime[cl.nodes[i].name] = now
+				if takeover && now > 6*time.Second {
+					// a new member under another name takes over the crashed member's address and port
+					cl.net.mu.Lock()
+					delete(cl.net.nodes, cl.nodes[i].tr.addr)
+					cl.net.mu.Unlock()
+					if nv, err := cl.net.newNamedNode(i, fmt.Sprintf("x%d", i), c, cl.t0); err == nil {
+						extra = append(extra, nv)
+						seedN := cl.nodes[0]
+						go nv.m.Join([]string{fmt.Sprintf("%s/%s", seedN.name, seedN.tr.addr)})
+					}
+				}
 				cl.net.mu.Lock()
 				cl.net.loss = loss
 				cl.net.dropAccusations = ownEvidence
@@ -211,6 +235,9 @@ func c03Crash(r *rng, id string) {
 			res = append(res, fmt.Sprintf("%s:%s:%d:%d:%d", s.name, cname, lat, leaveSeen, s.maxScore))
 		}
 		s.mu.Unlock()
+	}
+	for _, x := range extra {
+		x.m.Shutdown()
 	}
 	cl.shutdownAll()
 	rs := "-"
